@@ -117,6 +117,20 @@ func newRunner(o *vrt.Obs, c vrt.Case) *runner {
 }
 
 // replay feeds script to a real Exchange of world w and records what the monitors see.
+// progressDisplay reads what a progress display reads.
+type progressDisplay struct{}
+
+func (progressDisplay) UpdateStatus(s fbb.Status) {
+	for _, p := range []*fbb.Proposal{s.Sending, s.Receiving} {
+		if p != nil {
+			_ = len(p.Title()) + len(p.MID()) + p.Size() + p.CompressedSize()
+		}
+	}
+	if s.BytesTotal > 0 {
+		_ = s.BytesTransferred * 100 / s.BytesTotal
+	}
+}
+
 // id identifies the mutant (stable across runs); it is used in keys only through its class.
 func (r *runner) replay(w *b2fx.PeerWorld, script []byte, class, id string) {
 	o := r.o
@@ -131,6 +145,12 @@ func (r *runner) replay(w *b2fx.PeerWorld, script []byte, class, id string) {
 	lg := &mem.Log{}
 	st, _ := w.NewStation(lg)
 	sess := w.NewLibSession(st.AsHandler())
+	if o.Evals%2 == 0 {
+		// every other session has a status updater registered (an application with a progress display):
+		// the reporting goroutines then run on remote-controlled numbers too
+		sess.SetStatusUpdater(progressDisplay{})
+		o.Count("sessions_with_status_updater", 1)
+	}
 	end, link := vpipe.NewScripted(script, vpipe.Plan{Seed: int64(len(script)), Seg: w.Seg}, false)
 	type result struct {
 		err   error
